@@ -21,6 +21,7 @@ mod jsonbytes;
 mod mainglue;
 mod htmlbytes;
 mod dm;
+mod bounds;
 
 fn want_map(rs: &RS, lines: bool, branches: bool, fns: bool) -> BTreeMap<String, CovResult> {
     rs.iter()
@@ -490,6 +491,7 @@ pub fn run(rep: &mut Report) {
     mainglue::run(rep);
     htmlbytes::run(rep);
     dm::run(rep);
+    bounds::run(rep);
 }
 
 fn html_case(rep: &mut Report, rng: &mut Rng, rs: &RS, reqs: &mut Vec<String>, impl_arr: &mut Vec<String>) {
